@@ -27,6 +27,8 @@ for P in $PROPS; do
   echo "$OUTP" | grep -E "^(VIOLATION|PASS|FAIL|INFRA)" | head -3
 done
 git -C /repo checkout -- .
+# the runs above rewrote evidence/<id>.json from the CHANGED tree: put the committed evidence (clean tree) back
+for P in $PROPS; do git -C /verif checkout -- evidence/$P.json 2>/dev/null; done
 echo "caught:$CAUGHT missed:$MISSED"
 mkdir -p $OUT
 cp $SD/patch.diff $SD/demo.py $OUT/
